@@ -193,6 +193,7 @@ RECIPES = {
         'tokenize_lines': [
             r_unpack_namedtuple_call('_get_token_collection', 'TokenCollection'),
             r_for_over(r'lines', ['line']),
+            r_assigned_from(r'len\(line\)', 'max_'),
             r_assigned_from(r'pseudo_token\.match\(.*\)', 'pseudomatch'),
             r_assigned_from(r'pseudomatch\.group\(2\)', 'token'),
             r_tuple_assigned_from(r'pseudomatch\.span\(2\)', ['start', 'pos']),
